@@ -126,16 +126,21 @@ func runC15(c *Check) {
 			}
 			equalDepth--
 		}
-		for _, b := range fn.Blocks {
-			for _, in := range b.Instrs {
-				call, ok := in.(*ssa.Call)
-				if !ok || !strings.HasSuffix(commonName(call.Common()), "go-datastore.Key).Equal") {
-					continue
-				}
-				t := TermOf(call, &Ctx{Fn: fn})
-				for _, a := range t.Args {
-					if k := keyName(a); k != "" {
-						out[k] = true
+		var bodies []*ssa.Function
+		bodies = append(bodies, fn)
+		bodies = append(bodies, fn.AnonFuncs...)
+		for _, body := range bodies {
+			for _, b := range body.Blocks {
+				for _, in := range b.Instrs {
+					call, ok := in.(*ssa.Call)
+					if !ok || !strings.HasSuffix(commonName(call.Common()), "go-datastore.Key).Equal") {
+						continue
+					}
+					t := TermOf(call, &Ctx{Fn: body})
+					for _, a := range t.Args {
+						if k := keyName(a); k != "" {
+							out[k] = true
+						}
 					}
 				}
 			}
@@ -249,7 +254,7 @@ func runC15(c *Check) {
 	}
 	// ---- R2
 	{
-		g := BuildECFG(p, exec, ExpandOpts{MaxDepth: 0})
+		g := BuildECFG(p, exec, ExpandOpts{MaxDepth: 2, Stop: func(f *ssa.Function) bool { return f == root }})
 		c.NoteGraph(g)
 		fn := fnName(exec)
 		var batchPuts, direct []*Node
@@ -268,15 +273,8 @@ func runC15(c *Check) {
 		}
 		commits := g.Select(func(n *Node) bool { return dsCall(n, "Commit") })
 		if len(commits) == 1 && len(batchPuts) > 0 {
-			hb := loopHeaderOf(batchPuts[0].In.Block())
-			inLoop := hb != nil && loopHeaderOf(commits[0].In.Block()) != hb
-			if inLoop {
-				c.OK("C15-R2", "ExecuteTxs ⟂ commit-after-loop", fn, p.InstrPos(commits[0].In), "the single Commit is outside the per-transaction loop", true)
-			} else {
-				c.Bad("C15-R2", "ExecuteTxs ⟂ commit-after-loop", fn, p.InstrPos(commits[0].In), "Commit is inside the per-transaction loop: a later malformed transaction leaves earlier ones applied", nil)
-			}
 			// no error return of the validation kind after commit: returns between puts and commit never pass commit (structural), and no put after commit
-			c.Decide("C15-R2", "ExecuteTxs ⟂ no-write-after-commit", fn, p.InstrPos(commits[0].In), "nothing is staged after the commit", "a write is staged after the batch was committed", g, g.PathAvoiding(commits, nodeSet(batchPuts), nil))
+			c.Decide("C15-R2", "ExecuteTxs ⟂ no-write-after-commit", fn, p.InstrPos(commits[0].In), "the single Commit follows every staged write (it is not inside the per-transaction loop)", "a write can be staged after the batch was committed (Commit inside the per-transaction loop): a later malformed transaction leaves earlier ones applied", g, g.PathAvoiding(commits, nodeSet(batchPuts), nil))
 		} else {
 			c.Bad("C15-R2", "ExecuteTxs ⟂ single-commit", fn, p.Pos(exec.Pos()), fmt.Sprintf("%d Commit calls", len(commits)), nil)
 		}
@@ -324,7 +322,7 @@ func runC15(c *Check) {
 		}
 	}
 	c.MinInstances("C15-R1", 5)
-	c.MinInstances("C15-R2", 4)
+	c.MinInstances("C15-R2", 3)
 	c.MinInstances("C15-R3", 3)
 	c.MinInstances("C15-R4", 1)
 }
